@@ -12,7 +12,7 @@ from common import c_Q, c_bool, c_list, c_nat, c_opt
 
 from golem.core.optimisers.archive.generation_keeper import GenerationKeeper, _individuals_same
 from golem.core.optimisers.archive.individuals_containers import HallOfFame, ParetoFront
-from golem.core.optimisers.fitness import MultiObjFitness, SingleObjFitness
+from golem.core.optimisers.fitness import MultiObjFitness, SingleObjFitness, null_fitness
 from golem.core.optimisers.graph import OptGraph, OptNode
 from golem.core.optimisers.objective import Objective
 from golem.core.optimisers.opt_history_objects.individual import Individual
@@ -43,6 +43,8 @@ def is_multi_target(t):
 
 
 def make_fitness(spec, multi):
+    if spec['vals'] is None:          # failed evaluation: the null fitness of GOLEM (single-objective archives only)
+        return null_fitness()
     if multi:
         w = spec.get('w')
         return MultiObjFitness(values=tuple(spec['vals']), weights=tuple(w) if w else 1.)
@@ -98,7 +100,7 @@ def run_impl(case):
             raised = True
         o = {'raised': raised,
              'uids': [canon[i.uid] for i in archive.items],
-             'keys': [[float(v) for v in f.values] for f in archive.keys],
+             'keys': [[float(v) for v in f.values] if f.valid else [] for f in archive.keys],
              'gen': 0, 'stag': 0, 'any': False, 'qual': False}
         if t[0] == 'keeper':
             o.update(gen=int(obj.generation_num), stag=int(obj.stagnation_iter_count),
@@ -121,8 +123,10 @@ def coq_target(t):
 
 
 def coq_indiv(spec, multi):
-    vals = [c_Q(v) for v in spec['vals']]
-    if multi:
+    vals = [c_Q(v) for v in (spec['vals'] or ())]
+    if spec['vals'] is None:
+        fit = '(Single None (@nil Q))'
+    elif multi:
         w = spec.get('w') or [1.0] * len(vals)
         fit = '(Multi %s %s)' % (c_list(vals, 'Q'), c_list([c_Q(x) for x in w], 'Q'))
     else:
@@ -182,7 +186,10 @@ def configs(ctx):
     for k in (1, 2, 3, 4):
         for nobj in (1, 2, 3):
             alpha = LEX[nobj][(s + k) % len(LEX[nobj])]
-            out.append((('hof', k), [dict(vals=v, gclass=0, gen=0) for v in alpha]))
+            kinds = [dict(vals=v, gclass=0, gen=0) for v in alpha]
+            if nobj == 1:
+                kinds.append(dict(vals=None, gclass=0, gen=0))     # a failed evaluation (invalid fitness)
+            out.append((('hof', k), kinds))
     for sim in ('uid', 'same'):
         for cap in (0, 1, 2, 3):
             # quick: one objective count per capacity (alternating), thorough: both
@@ -242,6 +249,8 @@ def random_case(ctx):
         for i in range(npool):
             pool.append(dict(uid=i + 1, vals=tuple(r.choice(grid) for _ in range(nobj)), gclass=r.choice([0, 0, 1]),
                              gen=r.choice([0, 0, 1, None])))
+            if style == 'hof' and r.random() < 0.2:
+                pool[-1]['vals'] = None                            # failed evaluation
     if is_multi_target(target) and r.random() < 0.3 and target[0] == 'pareto':
         w = tuple(r.choice([1.0, -1.0, 0.5]) for _ in range(nobj))
         for p in pool:
@@ -336,6 +345,21 @@ def random_wide_case(ctx):
     return {'target': list(target), 'pool': pool, 'pops': pops}
 
 
+def invalid_cases():
+    """populations that contain individuals whose evaluation failed (invalid fitness), at every
+    position incl. the first, shown to an empty and to a non-empty hall of fame, k = 1..4"""
+    out = []
+    for nobj, vs in ((1, [(0.5,), (0.1,), (0.9,)]), (2, [(1.0, 0.5), (1.0, 0.0), (0.0, 2.0)])):
+        pool = [dict(uid=1, vals=None, gclass=0, gen=0)] + [dict(uid=i + 2, vals=v, gclass=0, gen=0) for i, v in enumerate(vs)]
+        pool.append(dict(uid=5, vals=None, gclass=0, gen=1))
+        for k in (1, 2, 3, 4):
+            for order in itertools.permutations(range(4)):
+                out.append({'target': ['hof', k], 'pool': pool, 'pops': [list(order), [4, order[1]], [order[0]]]})
+            for first in ([0], [0, 4], [2], []):
+                out.append({'target': ['hof', k], 'pool': pool, 'pops': [first, [4, 1], [0, 2, 3], [4]]})
+    return out
+
+
 def zero_size_cases():
     """maxsize = 0 / None: update of an empty hall of fame with a non-empty population raises
     (outside the property's k >= 1; compared with the model only)"""
@@ -362,7 +386,7 @@ def facts(case, obs):
     for p, o in zip(case['pops'], obs):
         empties += (len(p) == 0)
         for i in p:
-            v = tuple(case['pool'][i]['vals'])
+            v = tuple(case['pool'][i]['vals'] or ())
             if i in shown:
                 repeats = True
             elif v in vals_seen:
@@ -380,7 +404,7 @@ def facts(case, obs):
 
 
 def case_key(case):
-    return (tuple(case['target']), tuple((p['uid'], tuple(p['vals']), p['gclass'], p['gen'], tuple(p.get('w') or ()))
+    return (tuple(case['target']), tuple((p['uid'], None if p['vals'] is None else tuple(p['vals']), p['gclass'], p['gen'], tuple(p.get('w') or ()))
                                          for p in case['pool']),
             tuple(tuple(p) for p in case['pops']), tuple(tuple(x) for x in case.get('fresh_copies', [])))
 
@@ -489,6 +513,12 @@ def shrink(ctx, case):
             for j in range(len(cur['pops'][i])):
                 p = cur['pops'][i][:j] + cur['pops'][i][j + 1:]
                 cands.append(dict(cur, pops=cur['pops'][:i] + [p] + cur['pops'][i + 1:], fresh_copies=[]))
+        # keep a valid individual in the case when there is one (a case that only shows failed
+        # evaluations is a less telling failing input)
+        def shows_valid(c):
+            return any(c['pool'][i]['vals'] is not None for p in c['pops'] for i in p)
+        if shows_valid(cur):
+            cands = [c for c in cands if shows_valid(c)]
         if not cands:
             break
         terms = [coq_case(c, run_impl(c)) for c in cands]
@@ -508,7 +538,9 @@ def run(ctx):
                 '(k 1..4, capacity 0..3, both similarity functions, 1..3 objectives); quick: U2 P2; thorough: U2 P2, U3 P2 N3 (not for '
                 'the 4-kind _individuals_same fronts), U2 P3 N3 (hall of fame), U4 P1 N4; random: sequences of <= 30 updates over pools of <= 14 '
                 'individuals incl. anti-chains that fill the front; wide fronts: 3- and 4-objective fronts of 3..5 mutually non-dominated '
-                'permutation vectors, then newcomers (componentwise minima of 2-3 members) dominating non-adjacent members; evaluations = updates compared; distinct = distinct sequence; '
+                'permutation vectors, then newcomers (componentwise minima of 2-3 members) dominating non-adjacent members; invalid fitness: the 3-letter alphabet of the 1-objective hall-of-fame configurations has a 4th letter '
+                '(null fitness), all 24 orders of {invalid, a, b, c} shown to an empty hall of fame, k 1..4, and 20 % invalid individuals in the random '
+                'hall-of-fame pools; evaluations = updates compared; distinct = distinct sequence; '
                 'non-trivial = >= 2 individuals shown and a tie, a repeat, more individuals than the capacity or >= 3 individuals')
     ctx.trusted_extra = [
         'fitness values of the correspondence are dyadic and pairwise identical or far apart, so binary64 comparisons and '
@@ -570,6 +602,9 @@ def run(ctx):
     ctx.set_exhaustive('wide fronts (3-4 objectives)', False)
     for case, obs, ag, ho in res[:1]:
         ctx.sample({'case': case, 'observed': obs, 'agree': ag, 'holds': ho})
+    # ---- failed evaluations: invalid fitness at any position of a population
+    evaluate(ctx, 'invalid fitness (hall of fame)', invalid_cases())
+    ctx.set_exhaustive('invalid fitness (hall of fame)', True)
     # ---- maxsize 0 (model only)
     evaluate(ctx, 'maxsize 0', list(zero_size_cases()))
     # ---- minimise the first violation for the replay file
